@@ -35,3 +35,6 @@ ls -1 *.pem
 # expired self-signed end-entity certificate (used pinned as a root)
 $OPENSSL req -x509 -newkey rsa:2048 -nodes -keyout expiredself.key.pem -out expiredself.cert.pem -subj "/CN=good.test" \
   -addext "subjectAltName=DNS:good.test,IP:127.0.0.1" -addext "basicConstraints=CA:FALSE" -not_before 20010101000000Z -not_after 20010102000000Z 2>/dev/null
+# "out of order" chain of an impostor: its own self-signed certificate (whose key it holds)
+# followed by the genuine server's valid certificate and the CA
+cat selfsigned.cert.pem good.cert.pem ca.cert.pem > evilchain.cert.pem; cp selfsigned.key.pem evilchain.key.pem
